@@ -80,6 +80,8 @@ def check(ck: Checker) -> None:
     from . import round7 as _r7
 
     _r7.meta_from_info_own_keys(ck, "C01.algo")
+    _r7.protect_always_chmods(ck, "C01.protect")
+    _r7.failed_copy_never_trusted(ck, "C01.protect")
     _r4.hashinfo_identity(ck, "C01.pair")
 
 
